@@ -16,6 +16,9 @@ TRUSTED_BASE = [
     "concurrency (Http/ConcModel.v): one scheduler step = one access to shared state (register mutex, ArcSwap load/store, strong counts; the tokio "
     "mutex of the BMP state machine and the Option inside); std Mutex / tokio Mutex / ArcSwap are taken to be mutual exclusion / atomic cells; the tie to the "
     "code is by the anchors in the model file plus the real-thread stages c12-regrace and c12-statelock (harness engine c12, facade rotonda::verif::bmp_stream)",
+    "engine c12lock: the schedule of C12_statelock_release_refuted replayed on the real RouterHandler::process_msg / RouterInfoApi / RouterListApi: the "
+    "connection task is held inside process_msg by back-pressure from the receiving end of the fixture's gate (StreamFixture::hold_updates); 'blocked' = the "
+    "request task has not finished 120 ms after it was spawned",
     "not modelled: hyper's parser and connection handling (request_ok states what the http crate lets through), response bodies beyond 'gzip decodes' and '4xx has a reason', routecore Community::from_str (argument of the model)",
 ]
 ASSUMPTIONS = [
@@ -395,18 +398,24 @@ def regrace(V, tier, seed):
                                               f"difference (position, demanded, found) = {d}; harness verdict: {verdict[:300]}",
                                       "kind": "property", "replay_cmd": replay, "case": case[:4000], "model": spec[:2000], "impl": obs[:2000]})
                 r["coverage"]["runs"].append(run)
-                continue
+                break       # one report per stage (the replay file is per stage)
+        r["coverage"]["runs"].append(run)
         if not verdict.startswith("ok"):
             r["failures"].append({"what": f"c12-regrace: {verdict[:600]}", "kind": "property", "replay_cmd": replay})
-        r["coverage"]["runs"].append(run)
+            break
     return r
+
+
+def gen_lock(rng, tier):
+    """engine c12lock: request kinds made while the connection task sits inside process_msg"""
+    for _ in range(5 if tier == "quick" else 40):
+        yield " ".join(rng.choice(["I", "L"]) for _ in range(rng.range(1, 5)))
 
 
 def statelock(V, tier, seed):
     """One BMP connection through the real RouterHandler with its router list / router info endpoints on the same
-    state machine mutex. probe: the schedule of C12_statelock_release_refuted replayed with back-pressure from
-    downstream (the connection task sits inside process_msg while the pages are requested); hammer: requests on a
-    multi-thread runtime while messages are processed back to back. Every request must get its 200, nothing may panic."""
+    state machine mutex (the scenario of engine c12lock, free-running): requests on a multi-thread runtime while
+    messages are processed back to back. Every request must get its 200, nothing may panic."""
     import subprocess
     r = {"name": "c12-statelock", "evaluations": 0, "coverage": {"runs": []}, "failures": []}
     for k, ms in enumerate([1500, 800] if tier != "thorough" else [6000, 6000, 3000]):
@@ -427,9 +436,13 @@ def statelock(V, tier, seed):
         else:
             r["failures"].append({"what": f"c12-statelock: a router-info / router-list request made while BMP messages of that router are being "
                                           f"processed did not get its response: {out[:700]}", "kind": "property", "replay_cmd": " ".join(args)})
+            break
     return r
 
 
+ENGINES.append({"name": "c12lock", "gen": gen_lock, "corpus": lambda: ["I L", "L I", "I", "L", "I I L I"], "sep": " ", "shards": 5, "timeout": 300,
+                "nontrivial": lambda case, out: "blocked" in out,
+                "classify": lambda case, out: ["requests:%d" % len(case.split())] + (["info"] if "I" in case else []) + (["list"] if "L" in case else [])})
 EXTRAS = [regrace, statelock]
 
 LEVEL_TEXT = ("Concurrency: for all thread sets and all schedules of the step model of Resources::register (mutex, load, build, store, release; owners dropping "
